@@ -36,6 +36,8 @@ TRUSTED = [
     "overlapping-calls stage (harness/overlap14.py): every body parks on a gate, calls are tasks; which call a body belongs to is read off the "
     "order in which bodies start; failover / unprotected soft are diffed against Model/Decor/Overlap.lean, the rest is judged by the oracle only; "
     "capacity stage: oracle only (the ideal TTL map has no size limit)",
+    "results of outcome `same` compare equal to the earlier result (tuple equality) but carry the ordinal of the execution that produced them "
+    "(harness/decor14.Pay), which is how a served value is attributed to its store event",
     "always explicit early_ttl / soft_ttl: the default ttl*0.33 is a float product outside the model",
     "the store step after a successful execution is scripted too: cfg mode=default uses the facade's default condition (store every "
     "successful result), a plain ttl and no middleware; mode=script passes a user `condition` that turns down / raises on the results the "
@@ -408,9 +410,73 @@ def exhaustive_cases():
                             ops += [f"done a 0 {o}", "call a ok", "call a ok", "done a 0 ok"]
                         ops += ["call a ok", f"adv {ttl - 1}", f"call a {o}", "adv 1", f"call a {o}", "call a ok"]
                         out.append({"cfg": cfg, "ops": ops})
+    out += callable_ttl_grid()
     out += store_step_grid()
     out += duration_grid()
     out += recalculation_grid()
+    out += fine_grid()
+    return out
+
+
+def callable_ttl_grid():
+    """hit and dynamic (= hit(cache_hits=3, update_after=1)) with the ttl given as a CALLABLE returning the same number (with and
+    without a `result` parameter): every parameter combination with the boundary-walking history; the model is the same"""
+    out = []
+    for ttl in D.TTLS:
+        for cttl in (1, 2):
+            for hits in D.HITS:
+                for upd in D.UPDS:
+                    for bg in (0, 1):
+                        cfg = {"decor": "hit", "ttl": ttl, "inner": 0, "hits": hits, "upd": upd, "bg": bg, "store": "plain", "cttl": cttl}
+                        ops = ["call a ok"] + ["call a lis"] * (hits + 1)
+                        if bg:
+                            ops += ["done a 0 ok"]
+                        ops += ["call a ok", "adv 5", "call a lis", f"adv {ttl - 6}", "call a lis", "adv 1", "call a lis", "call a ok"]
+                        out.append({"cfg": cfg, "ops": ops})
+        for cttl in (0, 1, 2):
+            cfg = {"decor": "hit", "ttl": ttl, "inner": 0, "hits": 3, "upd": 1, "bg": 1, "store": "plain", "via": "dynamic"}
+            if cttl:
+                cfg["cttl"] = cttl
+            for o in ("ok", "lis"):
+                ops = ["call a ok", "call a lis", f"done a 0 {o}", "call a lis", "call a lis", "call a lis", "call a lis", f"done a 0 {o}",
+                       f"adv {ttl - 1}", "call a lis", "adv 1", "call a lis"]
+                out.append({"cfg": cfg, "ops": ops})
+    return out
+
+
+def fine_grid():
+    """(1) hit, every parameter combination x every SUB-SECOND offset k/8 s (k = 1..7) of the first hit after the store: the value
+    is used up, then calls in each of the last four ticks before the hard ttl and at it (a counter that dies even a fraction of
+    a second before its value would hand the used-up value out again); (2) every strategy: successful executions that return a
+    result EQUAL to the stored one (`same`) at ttl-1 after the previous one, then a listed failure later than ttl after the
+    FIRST of them but within ttl of the LAST (the confirmed result must still be there), then beyond"""
+    out = []
+    for ttl in D.TTLS:
+        for hits in D.HITS:
+            for upd in D.UPDS:
+                for bg in (0, 1):
+                    cfg = {"decor": "hit", "ttl": ttl, "inner": 0, "hits": hits, "upd": upd, "bg": bg, "store": "plain"}
+                    for k in range(1, 8):
+                        ops = ["call a ok", f"adv {k}"] + ["call a lis"] * hits
+                        ops += [f"adv {ttl - k - 4}"] + ["call a lis", "adv 1"] * 4 + ["call a ok", "call a lis"]
+                        out.append({"cfg": cfg, "ops": ops})
+        for d in ("fail", "soft", "early", "hit"):
+            if d in ("soft", "early"):
+                variants = [(inner, 0, 0, bg) for inner in D.INNERS for bg in ((0, 1) if d == "early" else (0,))]
+            elif d == "hit":
+                variants = [(0, hits, 0, 0) for hits in (1, 3)]
+            else:
+                variants = [(0, 0, 0, 0)]
+            for inner, hits, upd, bg in variants:
+                cfg = {"decor": d, "ttl": ttl, "inner": inner, "hits": hits, "upd": upd, "bg": bg, "store": "plain"}
+                for n in (1, 2):
+                    ops = ["call a ok"]
+                    for _ in range(n):
+                        ops += [f"adv {ttl - 1}", "call a same"]
+                        if bg:
+                            ops += ["done a 0 same"]
+                    ops += [f"adv {ttl - 1}", "call a lis", "adv 1", "call a lis", "call a same", "adv 3", "call a lis"]
+                    out.append({"cfg": cfg, "ops": ops})
     return out
 
 
@@ -507,7 +573,7 @@ def store_step_grid():
 
 def run(chk: Check) -> int:
     proof = proof_stage(PROP, "driver_c14", chk.thorough) if not getattr(chk, "skip_proof", False) else None
-    n = chk.budget(8000, 280000)
+    n = chk.budget(5000, 260000)
     enum_len = chk.budget(4, 6)
     cases = [("corpus:" + name, c) for name, c in corpus_cases()]
     ncorpus = len(cases)
@@ -530,6 +596,12 @@ def run(chk: Check) -> int:
         enum_sizes[f"{cfg['decor']} bg={cfg['bg']} hits={cfg['hits']} upd={cfg['upd']} mode={cfg.get('mode', 'default')} executions "
                    f"with durations (1..{enum_len_d} ops): |alphabet|={len(alphabet)}"] = len(hs)
         cases += [(f"enum-dur:{cfg['decor']}:{i}", {"cfg": cfg, "ops": h}) for i, h in enumerate(hs)]
+    enum_len_f = chk.budget(5, 6)
+    for cfg, alphabet in D.ENUM_FINE:
+        hs = D.enumerate_histories(alphabet, enum_len_f)
+        enum_sizes[f"{cfg['decor']} bg={cfg['bg']} hits={cfg['hits']} upd={cfg['upd']} sub-second steps / equal results (1..{enum_len_f} ops): "
+                   f"|alphabet|={len(alphabet)}"] = len(hs)
+        cases += [(f"enum-fine:{cfg['decor']}:{i}", {"cfg": cfg, "ops": h}) for i, h in enumerate(hs)]
     enum_len_j = chk.budget(6, 7)
     for cfg, alphabet in D.ENUM_JOIN:
         hs = D.enumerate_histories(alphabet, enum_len_j)
@@ -621,7 +693,9 @@ def run(chk: Check) -> int:
                        "failure), failover and unprotected soft also diffed against Model/Decor/Overlap.lean. capacity: hit on `mem://?size=3..5` with filler "
                        "keys set / deleted between the calls (every history of 1..6 ops over a 4-letter alphabet for size 3, cache_hits 1, plus sampled ones), "
                        "judged by 'served at most cache_hits times before the function is executed again'",
-        "rule": "call histories (1..30 ops: call with scripted outcome ok/listed/unlisted, about a third of the calls with a DURATION for their "
+        "rule": "call histories (1..30 ops: call with scripted outcome ok/listed/unlisted or `same` (a successful execution that returns a result "
+                "EQUAL to its latest successful one; every success is a store event of its own for the model), time steps also at SUB-SECOND offsets "
+                "(2..7 ticks of 1/8 s after a store, the last three ticks before the hard ttl), hit / dynamic also with the ttl given as a callable, about a third of the calls with a DURATION for their "
                 "function body — it sleeps that long on the virtual loop before returning / raising; aimed so that the execution ends just "
                 "below / exactly at / just beyond the inner and the hard TTL of the stored result, or outlasts the early lock — and, for the half of the configurations with "
                 "mode=script (user condition, callable ttl for failover/soft, SET-refusing middleware) — rej (the condition turns the result "
